@@ -63,6 +63,10 @@ func nontrivial(f []string, verdict string) bool {
 		return len(f) == 7 && f[5] != "_" && f[6] != "_"
 	case "rd":
 		return len(f) >= 5 && f[2] != "-"
+	case "rdq": // at least two reads of a non-empty file, a non-empty rewrite
+		return len(f) == 6 && f[2] != "-" && strings.Contains(f[4], ",") && f[5] != "_"
+	case "scopyq":
+		return len(f) == 8 && f[3] != "-" && f[7] != "_"
 	case "scopy", "tcopy":
 		return len(f) >= 4 && f[3] != "-"
 	case "copier":
@@ -84,6 +88,9 @@ func (st *stats) account(line string, o outcome) {
 		verdict = verdict[:i]
 	}
 	st.Histogram[f[0]+":"+verdict]++
+	for _, t := range o.tags {
+		st.Histogram[t]++
+	}
 	if nontrivial(f, verdict) {
 		h := fnv.New64a()
 		h.Write([]byte(line))
@@ -235,7 +242,8 @@ func main() {
 		}
 		fmt.Fprintf(w, "oracle cases=%d fails=%d faultpos=%d fired=%d fired_err=%d fired_ok=%d", cases, fails,
 			st.Faults["positions"], st.Faults["fired_err"]+st.Faults["fired_ok"], st.Faults["fired_err"], st.Faults["fired_ok"])
-		for _, k := range []string{"wr:ok", "wr:err", "wrq:ok", "wrq:err", "rd:rd", "scopy:ok", "scopy:err", "tcopy:ok", "tcopy:err", "copier:ok",
+		for _, k := range []string{"wr:ok", "wr:err", "wrq:ok", "wrq:err", "rdq:ok", "rdq:err", "scopyq:ok", "scopyq:err",
+			"rdq-sched:wait", "rdq-sched:free", "scopyq-sched:wait", "scopyq-sched:free", "rd:rd", "scopy:ok", "scopy:err", "tcopy:ok", "tcopy:err", "copier:ok",
 			"copier:err", "chunking:raw"} {
 			fmt.Fprintf(w, " %s=%d", k, st.Histogram[k])
 		}
